@@ -178,6 +178,87 @@ Proof.
       { apply target_wrappers_transparent; try assumption. intros y Hy. apply Hok. right. exact Hy. }
       cbn [hd] in Hw. unfold target in Hw. unfold try_valueerror. rewrite Hw. reflexivity.
 Qed.
+
+(* ---- stacks that also hold `with` wrappers: the chain handed down differs between the two walks (it does not matter to wrappers), the outcome,
+        the visited list and the context store do not ---- *)
+Definition wrapper2 (t child : N) : Prop :=
+  plain_wrapper N (w_cls w) (w_body w) (w_value w) t child \/ (w_cls w t = CWith /\ w_body w t = Some child).
+Fixpoint linked2 (ws : list N) (r : N) : Prop :=
+  match ws with [] => True | x :: rest => wrapper2 x (hd r rest) /\ linked2 rest r end.
+Fixpoint stack_store (ws : list N) (r : N) (st : store) : store :=
+  match ws with
+  | [] => st
+  | x :: rest => stack_store rest r (match w_cls w x with CWith => w_attach w (hd r rest) x st | _ => st end)
+  end.
+Definition lookups_total (l : list N) : Prop := forall x, In x l -> forall st', exists c, w_scopes w x st' = RVal c.
+Local Notation INST L := (L N (w_eqb w) (wSC w) (w_truthy w) store (w_cls w) (w_body w) (w_value w) (w_output w) (w_argument w) (w_strip w)
+                            (w_supports w) (w_scopes w) (w_set_ctx w) (w_attach w) (w_ident_value w)).
+Lemma total_ok l x sc st : lookups_total l -> In x l -> scopes_okw x sc st.
+Proof. intros H Hx. unfold scopes_ok. destruct sc; [exact I|]. apply (H x Hx st). Qed.
+
+Theorem map_through_with f t b sc v st c :
+  w_cls w t = CWith -> w_body w t = Some b -> existsb (w_eqb w t) v = false -> w_scopes w t st = RVal c ->
+  exists sc', map_target w (S f) t sc (v, st) = map_target w f b (Some sc') (t :: v, w_attach w b t st).
+Proof.
+  intros Hc Hb Hv Hs. assert (Hs' : scopes_okw t sc st) by (destruct sc; [exact I|exists c; exact Hs]).
+  enter_map sc Hv Hs'; rewrite Hc; unfold TargetGen.bind, get_scopes, do_attach; cbn [fst snd]; rewrite ?Hs; rewrite Hb; eexists; reflexivity.
+Qed.
+
+Theorem cli_stack2 ws : forall r sc v st,
+  linked2 ws r -> w_cls w r = CSet -> NoDup (ws ++ [r]) -> (forall x, In x (ws ++ [r]) -> ~ In x v) -> lookups_total (ws ++ [r]) ->
+  target w (S (List.length ws)) (hd r ws) sc (v, st) = (RVal r, (r :: rev ws ++ v, stack_store ws r st)).
+Proof.
+  induction ws as [|x rest IH]; intros r sc v st HL Hr HD Hfresh Htot.
+  - cbn [hd List.length rev app stack_store]. unfold target. apply (INST set_is_target); [exact Hr| |apply (total_ok [r]); [exact Htot|left; reflexivity]].
+    apply (existsb_false_notin N (w_eqb w) (w_eqb_spec w)), Hfresh. left; reflexivity.
+  - cbn [hd List.length]. destruct HL as [Hw HL].
+    assert (Hv : existsb (w_eqb w x) v = false) by (apply (existsb_false_notin N (w_eqb w) (w_eqb_spec w)), Hfresh; left; reflexivity).
+    assert (Hk : scopes_okw x sc st) by (apply (total_ok (x :: rest ++ [r])); [exact Htot|left; reflexivity]).
+    inversion HD as [|? ? Hnotin HD']; subst.
+    assert (Hfresh' : forall y, In y (rest ++ [r]) -> ~ In y (x :: v)).
+    { intros y Hy [Hyx|Hyv]; [subst; contradiction|]. apply (Hfresh y); [right; exact Hy|exact Hyv]. }
+    assert (Htot' : lookups_total (rest ++ [r])) by (intros y Hy; apply Htot; right; exact Hy).
+    destruct Hw as [Hp|[Hc Hb]].
+    + assert (Hstep : target w (S (S (List.length rest))) x sc (v, st) = target w (S (List.length rest)) (hd r rest) sc (x :: v, st)).
+      { unfold target. destruct Hp as [[Hc Hb]|[[Hc Hb]|[Hc Hb]]]; [apply (INST through_assert)|apply (INST through_let)|apply (INST through_paren)]; assumption. }
+      rewrite Hstep, (IH r sc (x :: v) st HL Hr HD' Hfresh' Htot'). cbn [rev stack_store]. rewrite <- app_assoc.
+      replace (match w_cls w x with CWith => w_attach w (hd r rest) x st | _ => st end) with st; [reflexivity|].
+      destruct Hp as [[Hc _]|[[Hc _]|[Hc _]]]; rewrite Hc; reflexivity.
+    + destruct (Htot x (or_introl eq_refl) st) as [c Hsc]. unfold target.
+      rewrite (INST through_with (S (List.length rest)) x (hd r rest) sc v st c Hc Hb Hv Hsc). fold (target w).
+      rewrite (IH r _ (x :: v) (w_attach w (hd r rest) x st) HL Hr HD' Hfresh' Htot'). cbn [rev stack_store]. rewrite <- app_assoc, Hc. reflexivity.
+Qed.
+
+Theorem map_stack2 ws : forall r sc v st,
+  linked2 ws r -> w_cls w r = CSet -> NoDup (ws ++ [r]) -> (forall x, In x (ws ++ [r]) -> ~ In x v) -> lookups_total (ws ++ [r]) ->
+  map_target w (S (List.length ws)) (hd r ws) sc (v, st) = (RVal r, (r :: rev ws ++ v, stack_store ws r st)).
+Proof.
+  induction ws as [|x rest IH]; intros r sc v st HL Hr HD Hfresh Htot.
+  - cbn [hd List.length rev app stack_store]. apply map_set_is_target; [exact Hr| |apply (total_ok [r]); [exact Htot|left; reflexivity]].
+    apply (existsb_false_notin N (w_eqb w) (w_eqb_spec w)), Hfresh. left; reflexivity.
+  - cbn [hd List.length]. destruct HL as [Hw HL].
+    assert (Hv : existsb (w_eqb w x) v = false) by (apply (existsb_false_notin N (w_eqb w) (w_eqb_spec w)), Hfresh; left; reflexivity).
+    assert (Hk : scopes_okw x sc st) by (apply (total_ok (x :: rest ++ [r])); [exact Htot|left; reflexivity]).
+    inversion HD as [|? ? Hnotin HD']; subst.
+    assert (Hfresh' : forall y, In y (rest ++ [r]) -> ~ In y (x :: v)).
+    { intros y Hy [Hyx|Hyv]; [subst; contradiction|]. apply (Hfresh y); [right; exact Hy|exact Hyv]. }
+    assert (Htot' : lookups_total (rest ++ [r])) by (intros y Hy; apply Htot; right; exact Hy).
+    destruct Hw as [Hp|[Hc Hb]].
+    + rewrite (map_through_plain (S (List.length rest)) x (hd r rest) sc v st Hp Hv Hk).
+      rewrite (IH r _ (x :: v) st HL Hr HD' Hfresh' Htot'). cbn [rev stack_store]. rewrite <- app_assoc.
+      replace (match w_cls w x with CWith => w_attach w (hd r rest) x st | _ => st end) with st; [reflexivity|].
+      destruct Hp as [[Hc _]|[[Hc _]|[Hc _]]]; rewrite Hc; reflexivity.
+    + destruct (Htot x (or_introl eq_refl) st) as [c Hsc].
+      destruct (map_through_with (S (List.length rest)) x (hd r rest) sc v st c Hc Hb Hv Hsc) as [sc' Hstep]. rewrite Hstep.
+      rewrite (IH r _ (x :: v) (w_attach w (hd r rest) x st) HL Hr HD' Hfresh' Htot'). cbn [rev stack_store]. rewrite <- app_assoc, Hc. reflexivity.
+Qed.
+
+(* text edits and mapping edits address the same set, enter the same nodes and leave the same contexts behind, through any stack of
+   assert / let / parenthesis / with wrappers *)
+Theorem targets_agree_on_stacks ws r sc sc' v st :
+  linked2 ws r -> w_cls w r = CSet -> NoDup (ws ++ [r]) -> (forall x, In x (ws ++ [r]) -> ~ In x v) -> lookups_total (ws ++ [r]) ->
+  map_target w (S (List.length ws)) (hd r ws) sc (v, st) = target w (S (List.length ws)) (hd r ws) sc' (v, st).
+Proof. intros HL Hr HD Hf Ht. rewrite (map_stack2 ws r sc v st HL Hr HD Hf Ht), (cli_stack2 ws r sc' v st HL Hr HD Hf Ht). reflexivity. Qed.
 End W.
 
 Definition map_table_run (tb : table) (exprs : list nat) : res nat * nat :=
@@ -185,3 +266,10 @@ Definition map_table_run (tb : table) (exprs : list nat) : res nat * nat :=
 Print Assumptions map_target_is_a_set.
 Print Assumptions targets_agree_on_wrappers.
 Print Assumptions targets_agree_under_lambda.
+Print Assumptions targets_agree_on_stacks.
+(* non-vacuity: `with pkgs; let … in { … }` — nodes 0 with, 1 let, 2 set: both walks find node 2 and attach one context *)
+Example stacks_demo :
+  let tb := {| t_cls := [CWith; CLet; CSet]; t_body := [Some 1; None; None]; t_value := [None; Some 2; None]; t_output := []; t_argument := []; t_strip := [0; 1; 2];
+               t_supports := []; t_name := []; t_select := []; t_truthy := [false; true]; t_scopes := [(0, 0, RVal 1)]; t_values := [] |} in
+  map_table_run tb [0] = (RVal 2, 1) /\ table_run tb [0] = (RVal 2, 1).
+Proof. vm_compute. split; reflexivity. Qed.
